@@ -3,6 +3,8 @@ import M3d.Lemmas.BoundedPoly
 import M3d.Lemmas.BoundedStacked
 import M3d.Lemmas.BoundedPolyHull
 import M3d.Lemmas.BoundedPolyRect
+import M3d.Lemmas.BoundedRectSet
+import M3d.Lemmas.BoundedRectSetOrd
 import Mathlib.Analysis.Real.Sqrt
 /-!
 # C03 — Solids never contain points outside their reported bounding box
@@ -615,5 +617,119 @@ example : SDFBoxed (K := ℚ) ⟨false, ⟨mk3 0 0 0, mk3 1 1 0⟩,
   · simp only [get1]
     exact ⟨le_trans (min_le_right _ _) (min_le_left _ _), le_trans (min_le_right _ _) (min_le_right _ _)⟩
   · rcases hi with hi | hi <;> exact absurd hi (by decide)
+
+/-! ## `toolbox3d.RectSet` objects (programs of `Add/Remove/AddRectSet/RemoveRectSet` over several sets)
+
+`RectSet.Min()/Max()` are read off the first / last entry of the per-axis split slices, the tree of
+`Solid()` caches them and puts an `InBounds` test in front of the per-rect tests: a box imposed on the
+underlying definition "some stored rect contains the point".  The model (`Model/RectSet.lean`,
+`Model/RectSetProg.lean`) runs a program over `*RectSet` objects on a store of **values**: no object
+shares its split slices or its rect map with another one. -/
+section RectSetObjects
+open M3d.RectSet
+variable {F : Type} [LinearOrder F] [OfNat F 0]
+
+/-- **`RectSet.Min()/Max()` after any history** (`NewRectSet()`, then any finite sequence of `Add`, `Remove`,
+`AddRectSet`, `RemoveRectSet`, the argument sets built the same way; any boxes): `Min ≤ Max` on every axis
+(`(0,0,0),(0,0,0)` for a set without rects), and every point of every rect stored in the set lies in
+`[Min(), Max()]` — the reported box does not cut the set. -/
+theorem rectset_bounds (h : Hist F) :
+    (∀ ax, ax < 3 → h.eval.min.get ax ≤ h.eval.max.get ax) ∧
+    (∀ r ∈ h.eval.rects, ∀ p, r.contains p = true → (⟨h.eval.min, h.eval.max⟩ : RectSet.Rect F).contains p = true) :=
+  ⟨inv_min_le_max (hinv h).inv, fun _ hr _ hc => inv_box_encloses (hinv h).inv hr hc⟩
+
+/-- **`RectSet.Solid()` after any history**: `newRectSetSolid` terminates, `Contains` answers `true` exactly
+where some stored rect contains the point (the `InBounds` tests of the tree cut nothing), and only inside the
+box the solid reports (`solidBox`: the rect itself for a single rect, otherwise the cached `Min()/Max()`). -/
+theorem wrapper_does_not_cut_rectset (h : Hist F) :
+    ∃ t, solidOf h.eval = some t ∧ (∀ p, t.contains p = h.eval.anyRect p) ∧
+      (∀ p, t.contains p = true → (solidBox h.eval).contains p = true) :=
+  inv_solid (hinv h).inv
+
+/-- **The box `Solid()` reports is ordered**: if every box of the history (added or removed, also through the
+argument sets) has `lo ≤ hi` on every axis, so has every rect stored in the set (`splitRect` only cuts strictly
+inside a rect, `Remove` only deletes), hence the box of the solid — the rect itself for a single rect, the cached
+`Min()/Max()` otherwise — has `Min ≤ Max`. -/
+theorem rectset_solid_ordered (h : Hist F) (hb : ∀ r ∈ h.boxes, ∀ ax, ax < 3 → r.lo.get ax ≤ r.hi.get ax) :
+    (∀ r ∈ h.eval.rects, ∀ ax, ax < 3 → r.lo.get ax ≤ r.hi.get ax) ∧
+    ∀ ax, ax < 3 → (solidBox h.eval).lo.get ax ≤ (solidBox h.eval).hi.get ax := by
+  have ho := hist_rects_ord h hb
+  refine ⟨ho, inv_solidBox_ordered (hinv h).inv ?_⟩
+  intro r hr
+  exact ho r (by rw [hr]; exact List.mem_singleton_self r)
+
+/-- … at every `Solid()` call of every program whose receivers' histories (`solidCalls`) only use boxes with
+`lo ≤ hi`. -/
+theorem rectset_program_solid_ordered (cs : List (Cmd F))
+    (hb : ∀ h ∈ solidCalls (fun _ => (Hist.new : Hist F)) cs, ∀ r ∈ h.boxes, ∀ ax, ax < 3 → r.lo.get ax ≤ r.hi.get ax) :
+    ∀ s ∈ progStates (fun _ => (RS.empty : RS F)) cs,
+      ∀ ax, ax < 3 → (solidBox s).lo.get ax ≤ (solidBox s).hi.get ax := by
+  intro s hs
+  rw [progStates_eq cs (fun _ => RS.empty) (fun _ => Hist.new) (fun _ => rfl)] at hs
+  obtain ⟨h, hh, rfl⟩ := List.mem_map.mp hs
+  exact (rectset_solid_ordered h (hb h hh)).2
+
+/-- **Programs over `RectSet` objects** `v_0, v_1, …` (each starting as `NewRectSet()`; statements `v_i.Add`,
+`v_i.Remove`, `v_i.AddRectSet(v_j)`, `v_i.RemoveRectSet(v_j)` — also `i = j`, also with `v_j` edited again
+afterwards —, `v_i = NewRectSet()`, `v_i.Solid()`): at every `Solid()` call the receiver `s` (its value at that
+moment, `progStates`) reports ordered bounds that enclose all its rects, and the returned solid answers exactly
+"some rect stored in the receiver at the time of the call contains the point", only inside the box it reports.
+In particular editing `v_j` after `v_i.AddRectSet(v_j)` (or editing `v_i`) never moves the bounds of the
+other object: this is what the correspondence kind `rsprog` compares the real objects with. -/
+theorem rectset_program_bounds (cs : List (Cmd F)) :
+    ∀ s ∈ progStates (fun _ => (RS.empty : RS F)) cs,
+      (∀ ax, ax < 3 → s.min.get ax ≤ s.max.get ax) ∧
+      (∀ r ∈ s.rects, ∀ p, r.contains p = true → (⟨s.min, s.max⟩ : RectSet.Rect F).contains p = true) ∧
+      ∃ t, solidOf s = some t ∧ (∀ p, t.contains p = s.anyRect p) ∧
+        (∀ p, t.contains p = true → (solidBox s).contains p = true) := by
+  intro s hs
+  obtain ⟨h, rfl⟩ := progStates_hist cs s hs
+  exact ⟨(rectset_bounds h).1, (rectset_bounds h).2, wrapper_does_not_cut_rectset h⟩
+
+/-- … and the same holds for every object after the whole program (whether or not `Solid()` is ever called). -/
+theorem rectset_program_final_bounds (cs : List (Cmd F)) (i : Nat) :
+    let s := progFinal (fun _ => (RS.empty : RS F)) cs i
+    (∀ ax, ax < 3 → s.min.get ax ≤ s.max.get ax) ∧
+    (∀ r ∈ s.rects, ∀ p, r.contains p = true → (⟨s.min, s.max⟩ : RectSet.Rect F).contains p = true) := by
+  obtain ⟨h, e⟩ := progFinal_hist (K := F) cs i
+  simp only [e]
+  exact rectset_bounds h
+
+/-- What the driver prints for a program is `1:` + the stored-rect test per point: the markers `D`
+(non-terminating `newRectSetSolid`) and `Y` (tree ≠ stored-rect test, or a contained point outside the
+reported box) never occur. -/
+theorem rectset_program_answers (cs : List (Cmd F)) (pts : List (V3 F)) :
+    progAnswers cs pts = (progStates (fun _ => (RS.empty : RS F)) cs).map fun s =>
+      "1:" ++ String.join (pts.map fun p => if s.anyRect p then "1" else "0") := by
+  unfold progAnswers
+  apply List.map_congr_left
+  intro s hs
+  obtain ⟨_, _, t, ht, hu, hb⟩ := rectset_program_bounds cs s hs
+  unfold solidAnswer
+  rw [ht]
+  show "1:" ++ String.join (pts.map _) = "1:" ++ String.join (pts.map _)
+  congr 2
+  apply List.map_congr_left
+  intro p _
+  show (if (t.contains p != s.anyRect p) = true then "Y"
+    else if (s.anyRect p && !(solidBox s).contains p) = true then "Y" else if s.anyRect p = true then "1" else "0") = _
+  have e1 : (t.contains p != s.anyRect p) = false := by rw [hu p]; simp
+  simp only [e1, Bool.false_eq_true, if_false]
+  cases hsp : s.anyRect p
+  · simp
+  · have := hb p (by rw [hu p]; exact hsp)
+    simp [this]
+
+/-- Non-vacuity / the scenario of a copy that is edited afterwards: `v_0 = {[0,1]³, [1,2]×[0,1]²}`, `v_1.AddRectSet(v_0)`
+into the empty `v_1`, then `v_1.Add([1/4,1/2]×[0,1]²)` introduces a split strictly inside `v_0`'s range; `v_0` still
+reports `x ≤ 2` and its solid still contains `(2, 1, 1)` and `(3/2, 1/2, 1/2)`. -/
+example :
+    let cs : List (Cmd Rat) := [.add 0 ⟨⟨0, 0, 0⟩, ⟨1, 1, 1⟩⟩, .add 0 ⟨⟨1, 0, 0⟩, ⟨2, 1, 1⟩⟩, .addSet 1 0,
+      .add 1 ⟨⟨1/4, 0, 0⟩, ⟨1/2, 1, 1⟩⟩, .solid 0, .solid 1]
+    (progStates (fun _ => RS.empty) cs).map (fun s => (s.max.x, s.rects.length)) = [(2, 2), (2, 4)] ∧
+    progAnswers cs [⟨2, 1, 1⟩, ⟨3/2, 1/2, 1/2⟩, ⟨3, 0, 0⟩] = ["1:110", "1:110"] := by
+  decide +kernel
+
+end RectSetObjects
 
 end M3d.C03
